@@ -156,7 +156,13 @@ VF_ZCFG_END
 VF_ZCFG_BEGIN(12, 4, true, true, P4_4, 3, 5, 1)   // twin of 1: states 0 and 3 define no callback
 	static constexpr int inj(int i) { return i == 1 ? 1 : i == 2 ? 2 : 0; } static constexpr int headInj() { return 0; } static constexpr bool bare(int i) { return i == 0 || i == 3; }
 VF_ZCFG_END
-static constexpr int ZOO_COUNT = 13;
+VF_ZCFG_BEGIN(13, 2, true, false, void, 255, 0, 0)   // the largest substitution limit the configuration type can express
+	static constexpr int inj(int) { return 0; } static constexpr int headInj() { return 0; } static constexpr bool bare(int) { return false; }
+VF_ZCFG_END
+VF_ZCFG_BEGIN(14, 3, false, true, P2_2, 255, 2, 1)   // L = 255, manual, headless, payload
+	static constexpr int inj(int) { return 0; } static constexpr int headInj() { return 0; } static constexpr bool bare(int) { return false; }
+VF_ZCFG_END
+static constexpr int ZOO_COUNT = 15;
 
 // ---- config type builder --------------------------------------------------------------------------
 template <class C, int K> struct WithCtx;
@@ -416,6 +422,7 @@ struct Runner {
 	static void cb(C& control, uint8_t state, uint8_t method, uint8_t who, bool thisOk, const void* evt) {
 		constexpr uint8_t fl = flavour<C>();
 		if (++W.cbCount > W.cbBudget) {
+			W.tr->budgetAbort = true; W.tr->budgetState = state; W.tr->budgetMethod = method;
 			note(NOTE_BUDGET, state, method);
 			siglongjmp(W.jb, 1);
 		}
@@ -477,7 +484,8 @@ struct Runner {
 		const uint32_t before = W.tr->n;
 		for (int chain = 0; chain < 3; ++chain) {
 			if (!W.op || W.actPos >= W.op->acts.size()) break;
-			const Action act = W.op->acts[W.actPos++];
+			const Action act = W.op->acts[W.actPos];
+			if (!(act.kind & ACT_STICKY)) ++W.actPos;
 			perform(control, state, method, act);
 			if (!(act.kind & ACT_CHAIN)) break;
 		}
@@ -496,7 +504,9 @@ struct Runner {
 	template <class C>
 	static void perform(C& control, uint8_t state, uint8_t method, const Action& act) {
 		constexpr uint8_t fl = flavour<C>();
-		uint8_t kind = static_cast<uint8_t>((act.kind & 0x7F) % ACT_COUNT);
+		uint8_t kind = static_cast<uint8_t>((act.kind & ACT_KIND_MASK) % ACT_COUNT);
+		uint8_t reqDest = act.x;
+		if (kind == ACT_REQUEST_REL) { kind = ACT_REQUEST; reqDest = static_cast<uint8_t>((state == NOID ? 0 : state) + 1 + act.x % 3); }
 		constexpr bool full = (fl == CTL_FULL || fl == CTL_GUARD);
 		// normalise to what this control offers
 		if (kind == ACT_CANCEL && fl != CTL_GUARD) kind = ACT_NONE;
@@ -512,13 +522,13 @@ struct Runner {
 				kind = ACT_NONE; ++W.tr->excludedVeto; note(NOTE_EXCLUDED_ACTIVATION_VETO);
 			}
 		}
-		if (kind == ACT_NONE) { if (((act.kind & 0x7F) % ACT_COUNT) != ACT_NONE) ++W.tr->normalised; return; }
+		if (kind == ACT_NONE) { if (((act.kind & ACT_KIND_MASK) % ACT_COUNT) != ACT_NONE) ++W.tr->normalised; return; }
 		Ev& a = pushEv(EV_ACT);
 		a.state = state; a.method = kind; a.d = method;
 		switch (kind) {
 		case ACT_REQUEST:
 			if constexpr (full) {
-				a.a = normState(act.x);
+				a.a = normState(reqDest);
 				if constexpr (HAS_PAY) {
 					a.c = act.pay;
 					if (act.pay) control.changeWith(a.a, makePay<Payload>(act.pay)); else control.changeTo(a.a);
